@@ -1,15 +1,49 @@
 """Regenerate MANIFEST.json from the table below (development-time helper)."""
 import json
 props = [json.loads(l) for l in open('/verif/properties.jsonl')]
+CORR = "Tied to /repo's working tree on every run by differential correspondence: generated scenarios are executed on the real code and on the compiled Lean model and every operation is compared (outcome, trace of entered methods with the identities of received arguments, cache key sets / resolve counts); the property's oracle is additionally evaluated on the real code alone. "
+TB = "Trusted: Lean kernel; axioms propext/Classical.choice/Quot.sound only (audited each run); hand-written model + correspondence harness; CPython issubclass/typing/graphlib/list.sort/dict modelled (class tables re-extracted from live classes per scenario), set iteration order imposed through ovld.typemap.set in correspondence runs."
 CLAIMED = {
+ "C01": dict(
+   text="Proof (Lean 4) of the three layers that keep a body from being entered on excluded arguments: (1) C01_lookup_applicable — whatever the table returns for a key or a call_next continuation key, for ANY declared types, only mentions handlers applicable to that key (arity, required keywords, every key type a subtype of the declared type); (2) C01_bind_arity — CPython's binding of the forwarded arguments; (3) C01_dependent_selected / C01_dependent_keyed — a generated value dispatcher only selects a handler whose generated conditions hold (resp. whose table key equals the argument). " + CORR + "Oracle: Python's own isinstance(arg, declared annotation) for every argument of every entered body, over static and value-dependent method sets.",
+   note="Partial: the value-level step from 'generated condition holds' to 'isinstance holds' is not a theorem for unions/intersections with value-dependent members (finding D7, listed) and literal tables (D4, listed). " + TB,
+   technique="Lean 4 theorems over a hand-written model + differential correspondence + isinstance oracle", ref="7/C01"),
+ "C02": dict(
+   text="Proof (Lean 4): C02_partial / C02_table — for every well-formed antisymmetric hierarchy, every table of plain-class methods, every key and every iteration order of the library's sets, after any history of lookups, the table returns exactly what the documented rule (specResolve: priority, then pointwise subclassing with a strict difference, then recency between identical signatures) prescribes: the unique winner, Ambiguous, or No method — under candComparable and sigTieOK, the complements of findings D1 and D21. Built from levels_mono (longest-path layering is strictly monotone along subclassing, no CycleError), the ranking core (first rank is a singleton iff unique winner) and the cache refinement. " + CORR + "Oracle: specResolve evaluated by the Lean driver vs the real outcome for every lookup/call; a levels correspondence (layer C) with a directed search for a failing input when it breaks.",
+   note="Partial: hypotheses candComparable (D1: integer levels order unrelated types) and sigTieOK (D21: tiebreak compared across signatures) delimit listed known findings; zero-argument calls bypass resolution (D9, listed). " + TB,
+   technique="Lean 4 theorems (layering monotonicity, ranking core, cache refinement) + differential correspondence + spec oracle", ref="7/C02"),
+ "C03": dict(
+   text="Proof (Lean 4) about the generated entry point (entry, proved equal to an explicit fold entry'): C03_forwards_only_supplied, C03_positions (positional arguments keep their positions), C03_key (the lookup key is exactly the types of what is forwarded), C03_nothing_dropped (every supplied argument is forwarded when no keyword-given positional lies beyond an omitted one), C03_method_own_defaults (every parameter the caller omitted is left to the selected method's own default). " + CORR + "Oracle on the real code: the selected method received exactly the supplied objects by identity, omitted parameters hold that method's own default sentinel, and a call shape accepted by an applicable method under the documented keyword rules is not rejected. Finding D8 (early exit dropped keywords) was reported by this check and repaired (fix: commit).",
+   note="Partial: residual class D8b (a keyword-given optional positional beyond an omitted one) and D9 (zero arguments) are listed findings; results/exceptions pass through by construction of the model (return method(args)) and are compared by the correspondence. " + TB,
+   technique="Lean 4 theorems over a hand-written model of the generated dispatcher + differential correspondence + identity oracle", ref="7/C03"),
+ "C04": dict(
+   text="Proof (Lean 4): C04_table and C04_fn — for every table / function with distinct handlers, ANY history of lookups or calls (succeeding, ambiguous, unmatched, nested recurse / call_next / f.next with the same or other arguments, value-dependent ranks) followed by a call gives the outcome and the trace of entered bodies of the same call made first on a fresh object; by refinement of the three caches to a pure lookup (invariant CInv, lookup_spec) lifted through the execution of method bodies (RunRel). " + CORR + "Oracle: every call is repeated on a freshly built real function and compared.",
+   note="Assumes distinct handler identities and code objects (CPython compares code objects by value; the model reproduces the collision, the theorem excludes it). " + TB,
+   technique="Lean 4 refinement proof (cache state machine to pure lookup) + differential correspondence + fresh-object oracle", ref="7/C04"),
+ "C05": dict(
+   text="Proof (Lean 4): C05_table — after ANY interleaving of registrations and lookups a lookup returns what a brand-new table with the same registrations returns; C05_fn — after any sequence of register / re-register / unregister / call a call behaves as on a brand-new function carrying the resulting definitions; C05_defns_register_only. " + CORR + "Oracle: every lookup/call after a change is compared with a freshly built real table / function built from the survivors. Finding D2 (register did not clear remembered errors) was reported by this check and repaired (fix: commit); its witness is a regression corpus entry.",
+   note="Partial at function level w.r.t. 'built from the surviving method set': tiebreaks left by unregister differ from a fresh build (D21, listed); registrations that fail with a configuration error are C18's subject. " + TB,
+   technique="Lean 4 invariant proof over operation sequences + differential correspondence + fresh-object oracle", ref="7/C05"),
+ "C06": dict(
+   text="Proof (Lean 4): specResolve_perm, specResolve_irrelevant (the documented rule ignores registration order and non-applicable methods) and, with C02, C06_order (any two registration orders and any two iteration orders of the library's sets answer alike) and C06_irrelevant. " + CORR + "Oracle: each static table is rebuilt under a shuffled registration order and shuffled set orders and the outcomes compared; the levels correspondence covers the per-type layering.",
+   note="Partial: inside candComparable / sigTieOK (D1, D21); overlapping unions/intersections are outside (D3, see C12). Hash seeds and addresses enter only through set iteration order, which the model takes as an explicit input. " + TB,
+   technique="Lean 4 theorems (order-freeness of the spec + C02) + metamorphic differential runs", ref="7/C06"),
+ "C07": dict(
+   text="Proof (Lean 4): C07_step (call_next from a handler of rank i yields exactly rank i+1: handler, dependent dispatcher, its ambiguity, or No method below the last rank — any types), C07_once (handlers of different ranks are different: no method twice), C07_fresh (not a candidate for the new arguments => fresh call), C07_next_partial (static tables: call_next from cur resolves as if cur and everything ranked above it were not registered). " + CORR + "Oracle: nextSpec evaluated by the Lean driver vs the real continuation lookup; function-level chains through real bodies compared by trace.",
+   note="Partial: strictAbove (no tied rank at or above the current method: D18), D1/D21 as in C02, zero-argument call_next raises KeyError (D24), handlers without a code object end the chain (codesAbove), f.next from methods with self is outside the documented use. " + TB,
+   technique="Lean 4 theorems over the publication plan + differential correspondence + spec oracle", ref="7/C07"),
  "C12": dict(
    text="Proof (Lean 4): typeorder of the model is reflexive, coincides with subclassing on classes (transitive there), puts a parametrised generic below its origin, a union above / an intersection below each member, a value-dependent type below its bound, and is mirror-symmetric on the fragment symFrag (never two different hook designs facing each other, recursively) for all hierarchies and all types, unbounded nesting (C12_refl, C12_cls, C12_cls_trans, C12_generic_origin, C12_union_member, C12_inter_member, C12_lit_bound, C12_dep_bound, C12_mirror_one_hook, C12_mirror_partial; fuel_irrelevant shows the model's fuel never runs out). The model is tied to /repo by correspondence layer A (every ordered pair of generated type closures on the real mro.typeorder / subclasscheck vs the model) on every run, plus the laws evaluated directly on the real code. Outside symFrag the code is NOT mirror-symmetric (findings D3, D22: listed per pair of hook kinds, each with a replayed witness); there the model must still predict the real answer exactly.",
-   note="Partial: mirror symmetry is proved on symFrag only; its complement is exactly the listed known-finding classes. Assumes Hier.WF (issubclass reflexive/transitive/below object; checked on the live classes of every scenario). Trusted: Lean kernel, the hand-written model + correspondence harness, CPython issubclass/typing modelled as tables.",
+   note="Partial: mirror symmetry is proved on symFrag only; its complement is exactly the listed known-finding classes. Assumes Hier.WF (issubclass reflexive/transitive/below object; checked on the live classes of every scenario). " + TB,
    technique="Lean 4 theorems over a hand-written model + differential correspondence (typeorder/subclasscheck on live objects)", ref="7/C12"),
  "C13": dict(
    text="Proof (Lean 4): for every non-value-dependent type built from classes, unions, intersections, Exactly, StrictSubclass, HasMethod and class predicates and every class c, the model's subclasscheck(c, T) equals the documented membership mem c T (C13_mem, by induction with unbounded nesting); the test is reflexive, equals issubclass on classes (hence transitive), and is transitive through a class on the down-closed fragment (C13_trans_partial); it cannot be transitive through Exactly (C13_trans_exactly_counterexample, kernel-checked witness; finding D17). Tied to /repo by correspondence layer A and by evaluating mem (computed by the Lean driver) against the real subclasscheck for every class x type of every scenario.",
-   note="Partial: transitivity only on the down-closed fragment (D17 findings listed: Exactly, HasMethod with virtual subclasses). Generic covariance is checked by the oracle and the correspondence, not by a separate theorem. Assumes Hier.WF (+ antisymmetry for StrictSubclass), checked per scenario.",
+   note="Partial: transitivity only on the down-closed fragment (D17 findings listed: Exactly, HasMethod with virtual subclasses). Generic covariance is checked by the oracle and the correspondence, not by a separate theorem. Assumes Hier.WF (+ antisymmetry for StrictSubclass), checked per scenario. " + TB,
    technique="Lean 4 theorems over a hand-written model + differential correspondence", ref="7/C13"),
+ "C20": dict(
+   text="Proof (Lean 4): C20_hit (a cache hit never resolves), C20_table and C20_fn — once a lookup / call has succeeded, repeating it (including every recurse / call_next / f.next lookup its methods perform) runs no resolution at all, whatever other lookups or calls happened in between (resolve is the only caller of mro / sort_types / typeorder / subclasscheck and hence of user predicates and hooks); cache_monotone (lookups never evict). " + CORR + "The correspondence compares the number of MultiTypeMap.resolve invocations per call with the model's prediction; oracle: repeated successful calls leave the resolve counter and the user class-predicate call counters unchanged.",
+   note="Distinct handlers assumed as in C04. " + TB,
+   technique="Lean 4 theorems (warm_no_resolve, cache monotonicity) + differential correspondence on resolve counts + hook-counter oracle", ref="7/C20"),
 }
 checks = []
 for pid, c in CLAIMED.items():
